@@ -255,17 +255,22 @@ def glue(ctx, exe):
     from cvise.passes.abstract import ProcessEventNotifier
     d = os.path.join(ctx.tmp, 'clex-glue')
     os.makedirs(d, exist_ok=True)
-    for text, arg, st in (('int a ; b\n', 'rm-toks-1', 1), ('int a ; b\n', 'rm-toks-1', 9), ('"x" y', 'delete-string', 0), ('a', 'no-such-mode', 0)):
+    for text, arg, st in (('int a ; b\n', 'rm-toks-1', 1), ('int a ; b\n', 'rm-toks-1', 9), ('"x" y', 'delete-string', 0), ('a', 'no-such-mode', 0),
+                          # an OK answer whose output is EMPTY (every token removed) is still an answer: the file becomes empty
+                          ('x', 'rm-toks-1', 0), ('x', 'rm-toks-1', 1), ('int x;', 'rm-toks-16', 0), ('ab', 'rm-tok-pattern-4', 0), ('a b', 'rm-toks-2', 0)):
         p = os.path.join(d, 't.c')
         with open(p, 'w') as f:
             f.write(text)
         ps = ClexPass(arg, {'clex': exe})
         res, st2 = ps.transform(p, st, ProcessEventNotifier(None))
-        rc, out, err = run_clex(exe, arg, st, p) if res.name != 'OK' else (51, None, None)
-        after = open(p).read()
+        after = open(p, newline='').read()
+        p2 = os.path.join(ctx.tmp, 'clex-glue-ref.c')
+        with open(p2, 'w') as f:
+            f.write(text)
+        rc, out, err = run_clex(exe, arg, st, p2)       # what the tool itself answers for this (mode, index, file)
         want = {51: 'OK', 71: 'STOP'}.get(rc, 'ERROR')
         ctx.evaluations += 1
-        if res.name != want or (res.name != 'OK' and after != text) or sorted(os.listdir(d)) != ['t.c']:
+        if res.name != want or (want != 'OK' and after != text) or (want == 'OK' and after.encode('latin-1', 'replace') != out) or sorted(os.listdir(d)) != ['t.c']:
             ctx.violation('python-glue', f'ClexPass({arg}).transform state {st} on {text!r}: result {res.name} (tool exit {rc}), file {after!r}, directory {sorted(os.listdir(d))}', {'mode': arg, 'index': st, 'input': text})
 
 
